@@ -16,12 +16,25 @@
    proposed_fixes/pchip-nan-gradient.diff (tools/props/c30.py selects the variant by inspecting the source and
    checks it against torch.autograd.grad on every run).  [pchip_vjp_checked] is the same in the model of
    division with an explicit error: Err 10 = some division of the forward or backward pass divides by zero
-   (Err 1/2/3 = the ValueErrors of PCHIP1D._validate_xy). *)
+   (Err 1/2/3 = the ValueErrors of PCHIP1D._validate_xy).
+
+   Part 3 (emu_base/math/double_krylov.py, the evaluation of the Frechet derivative called by
+   EvolveStateVector.backward; model Model/DoubleKrylov.v, tied by an exact event trace in tools/props/c30.py).
+   [lanczos_ctl ar n2 err1 err2 tol max_dim] is `lanczos` with max_krylov_dim = max_dim as a machine over the oracle
+   streams n2 j (norm after orthogonalisation), err1 j, err2 j (the two error estimates read off matrix_exp) for ANY
+   scalar type with a comparison [a_ltb ar] (binary64 included): it returns the list of kernel-call events in program
+   order and Ok (size, iterations, happy) or Err 3 (RecursionError).  The machine carries len(lanczos_vectors) as
+   state; [EOp k j] = iteration j applies the operator to vector k, [EDot k j] = overlap with vector k stored in
+   T[k, j], [EAppend i] = the appended vector has index i, [EExp n] = matrix_exp of T[:n, :n].
+   [lz_iter_events j] are the events of a complete iteration in lock-step (operator on vector j, overlaps with
+   vectors max(0, j-1)..j, new vector j+1, matrix_exp of size j+3).
+   [double_krylov_ctl] runs it on state, then on grad, then builds and exponentiates the block matrix. *)
 From Coq Require Import ZArith Reals List Arith Bool Lra.
 From Coq Require Import PrimFloat.
 From EV Require Import Base.Arith Model.Pchip Model.PchipAD Proofs.PchipADProofs.
 From EV Require Import Model.SvBase Model.SvHam Model.SvGrad Proofs.SvBaseProofs Proofs.SvHamProofs
   Proofs.SvGradProofs Proofs.SvComplexInstance Proofs.SvGradPhase.
+From EV Require Import Model.KrylovExp Model.DoubleKrylov Proofs.DoubleKrylovProofs.
 Import ListNotations.
 Open Scope nat_scope.
 
@@ -170,3 +183,120 @@ Theorem C30_pchip_grad_finite_float_peak_refuted :
   forallb f_finite (pchip_vjp float_arith true xs ys qs ws) = true /\
   pchip_fwd float_arith true xs ys qs = pchip_fwd float_arith false xs ys qs.
 Proof. vm_compute. repeat split. Qed.
+
+(* ---------------------------------------------------------------------------------------------------------- *)
+(* lanczos_contract.  For every oracle stream, tolerance and max_krylov_dim: `lanczos` returns at the FIRST iteration
+   m < max_krylov_dim that meets one of the two exit tests and raises RecursionError (Err 3) when there is none; it
+   never indexes lanczos_vectors out of range; the iterations before m are complete lock-step iterations (operator
+   applied to the newest vector j = len - 1, orthogonalised against vectors max(0, j-1)..j only, one new vector, one
+   matrix_exp of size j + 3), the last one stops after n2 on a breakdown (no vector appended, T is m+1 x m+1) and
+   is complete otherwise (T is m+2 x m+2). *)
+Theorem C30_lanczos_contract : forall (A : Type) (ar : Arith A) (n2 err1 err2 : nat -> A) (tol : A) max_dim t r,
+  lanczos_ctl ar n2 err1 err2 tol max_dim = (t, r) ->
+  match r with
+  | Ok l => exists m, m < max_dim /\ (forall i, i < m -> lz_trigger ar n2 err1 err2 tol i = false) /\
+      lz_trigger ar n2 err1 err2 tol m = true /\
+      l_iters l = S m /\ l_happy l = lz_breakdown ar n2 tol m /\
+      l_size l = (if lz_breakdown ar n2 tol m then S m else S (S m)) /\
+      t = ENorm0 :: flat_map lz_iter_events (seq 0 m) ++ lz_head (S m) m ++
+                    (if lz_breakdown ar n2 tol m then [] else lz_tail (S m) m)
+  | Err e => e = E_RECURSION /\ (forall i, i < max_dim -> lz_trigger ar n2 err1 err2 tol i = false) /\
+      t = ENorm0 :: flat_map lz_iter_events (seq 0 max_dim)
+  | OutOfFuel => False
+  end.
+Proof. exact lanczos_contract. Qed.
+
+(* Both outcomes occur (binary64 streams): a breakdown in iteration 1 returns two vectors after two operator
+   applications; streams that never meet a test (NaN, what a zero start vector produces: finding F-27) raise. *)
+Example C30_lanczos_contract_examples :
+  snd (lanczos_ctl float_arith (stream nan [1; 0]%float) (stream nan [1]%float) (stream nan [2]%float) 0.5%float 5)
+    = Ok (MkL 2 2 true) /\
+  snd (lanczos_ctl float_arith (stream nan []) (stream nan []) (stream nan []) 0.5%float 5) = Err E_RECURSION /\
+  fst (lanczos_ctl float_arith (stream nan [1; 0]%float) (stream nan [1]%float) (stream nan [2]%float) 0.5%float 5)
+    = [ENorm0; EOp 0 0; ENorm 0; EDot 0 0; ENorm2 0; EAppend 1; EExp 3;
+       EOp 1 1; ENorm 1; EDot 0 1; EDot 1 1; ENorm2 1].
+Proof. vm_compute. repeat split. Qed.
+
+(* The operator applications of a run are op(v_0), op(v_1), ..., each exactly once and in this order; their number
+   is the iteration count (max_krylov_dim when the run raises). *)
+Theorem C30_lanczos_operator_applications : forall (A : Type) (ar : Arith A) (n2 err1 err2 : nat -> A) (tol : A) max_dim t r,
+  lanczos_ctl ar n2 err1 err2 tol max_dim = (t, r) ->
+  filter is_op t = map (fun i => EOp i i) (seq 0 (match r with Ok l => l_iters l | _ => max_dim end)).
+Proof. exact lanczos_operator_applications. Qed.
+
+(* lanczos returns iff some iteration below max_krylov_dim meets a test; then 1 <= iterations <= max_krylov_dim and
+   the basis has `iterations` vectors after a breakdown, `iterations + 1` otherwise. *)
+Theorem C30_lanczos_returns_iff : forall (A : Type) (ar : Arith A) (n2 err1 err2 : nat -> A) (tol : A) max_dim t r,
+  lanczos_ctl ar n2 err1 err2 tol max_dim = (t, r) ->
+  ((exists l, r = Ok l) <-> exists j, j < max_dim /\ lz_trigger ar n2 err1 err2 tol j = true) /\
+  (forall l, r = Ok l -> 1 <= l_iters l <= max_dim /\ l_iters l <= l_size l <= S (l_iters l) /\
+                         (l_size l = l_iters l <-> l_happy l = true)).
+Proof. exact lanczos_returns_iff. Qed.
+
+(* double_krylov_contract.  double_krylov returns iff both Lanczos runs return; then dS is len(Vs) x len(Vg), both
+   lengths are in 1..max_krylov_dim+1 (so the corner entry big_mat[0, len(Vs)] exists and lies in the top-right
+   block), the operator has been applied iterations_s + iterations_g <= 2 max_krylov_dim times, and the trace is
+   the state run, the gradient run, block_diag, the two norms, the corner write, one matrix_exp of the
+   (len(Vs)+len(Vg))-square matrix.  Otherwise it raises RecursionError, after max_krylov_dim operator applications
+   of the state run (the gradient run is not started) or after the complete state run and max_krylov_dim
+   applications of the gradient run. *)
+Theorem C30_double_krylov_contract : forall (A : Type) (ar : Arith A) (n2s e1s e2s n2g e1g e2g : nat -> A) (tol : A) max_dim t r,
+  double_krylov_ctl ar n2s e1s e2s n2g e1g e2g tol max_dim = (t, r) ->
+  match r with
+  | Ok d => exists ts ls tg lg,
+      lanczos_ctl ar n2s e1s e2s tol max_dim = (ts, Ok ls) /\ lanczos_ctl ar n2g e1g e2g tol max_dim = (tg, Ok lg) /\
+      d_ns d = l_size ls /\ d_ng d = l_size lg /\ d_rows d = l_size ls /\ d_cols d = l_size lg /\
+      1 <= d_ns d <= S max_dim /\ 1 <= d_ng d <= S max_dim /\
+      d_ops d = l_iters ls + l_iters lg /\ count_ops t = d_ops d /\ d_ops d <= 2 * max_dim /\
+      t = tag 0 ts ++ tag 1 tg ++
+          tag 2 [EBlock (d_ns d) (d_ng d); ENormS; ENormG; ECorner 0 (d_ns d); EBigExp (d_ns d + d_ng d)]
+  | Err e => e = E_RECURSION /\
+      ((exists ts, lanczos_ctl ar n2s e1s e2s tol max_dim = (ts, Err E_RECURSION) /\ t = tag 0 ts /\
+                   count_ops t = max_dim) \/
+       (exists ts ls tg, lanczos_ctl ar n2s e1s e2s tol max_dim = (ts, Ok ls) /\
+                         lanczos_ctl ar n2g e1g e2g tol max_dim = (tg, Err E_RECURSION) /\
+                         t = tag 0 ts ++ tag 1 tg /\ count_ops t = l_iters ls + max_dim))
+  | OutOfFuel => False
+  end.
+Proof. exact double_krylov_contract. Qed.
+
+(* Every event of the state run precedes every event of the gradient run, which precede the events of
+   double_krylov itself; the latter exist iff the call returns. *)
+Theorem C30_double_krylov_sequencing : forall (A : Type) (ar : Arith A) (n2s e1s e2s n2g e1g e2g : nat -> A) (tol : A) max_dim t r,
+  double_krylov_ctl ar n2s e1s e2s n2g e1g e2g tol max_dim = (t, r) ->
+  exists t0 t1 t2, t = t0 ++ t1 ++ t2 /\
+    Forall (fun p => run_of p = 0) t0 /\ Forall (fun p => run_of p = 1) t1 /\ Forall (fun p => run_of p = 2) t2 /\
+    (forall ts e, lanczos_ctl ar n2s e1s e2s tol max_dim = (ts, Err e) -> t1 = [] /\ t2 = []) /\
+    ((exists d, r = Ok d) <-> t2 <> []).
+Proof. exact double_krylov_sequencing. Qed.
+
+(* all three outcomes occur: both runs return (sizes 1 and 2); a zero cotangent (NaN streams of the gradient run,
+   finding F-27) raises after the state run; a state run that does not converge skips the gradient run *)
+Example C30_double_krylov_contract_examples :
+  let good := stream nan [0]%float in let slow := stream nan [1; 0]%float in let never := stream nan [] in
+  let e := stream nan [1; 1]%float in
+  dk_outcome (snd (double_krylov_ctl float_arith good e e slow e e 0.5%float 4)) = (0%Z, (1, 2, (1, 2), 3)) /\
+  dk_outcome (snd (double_krylov_ctl float_arith good e e never never never 0.5%float 4)) = (3%Z, (0, 0, (0, 0), 0)) /\
+  count_ops (fst (double_krylov_ctl float_arith good e e never never never 0.5%float 4)) = 5 /\
+  count_ops (fst (double_krylov_ctl float_arith never never never good e e 0.5%float 4)) = 4.
+Proof. vm_compute. repeat split. Qed.
+
+(* block_triangular_powers: the algebra behind "derivative = top-right block of exp of [[A, E], [0, B]]".  Over ANY
+   ring satisfying [NRingLaws] (no commutativity of the product: matrices are an instance), for every n
+       [[a, e], [0, b]]^n = [[a^n, sum_{k<n} a^k e b^(n-1-k)], [0, b^n]],
+   so every power series sum_n c_n M^n of the block matrix has sum_n c_n sum_k a^k e b^(n-1-k) in its top-right
+   block, which for c_n = 1/n! and b = a is the Frechet derivative of exp at a in the direction e. *)
+Theorem C30_block_triangular_powers : forall (R : NRing), NRingLaws R -> forall (a e b : nr R) n,
+  blk_pow (upper R a e b) n = upper R (npow R a n) (frechet_sum R a e b n) (npow R b n).
+Proof. exact block_upper_pow. Qed.
+
+(* the laws are satisfiable by a ring whose product is not commutative (2x2 integer matrices), and there the
+   third power of a concrete block matrix has the stated top-right block *)
+Theorem C30_block_laws_satisfiable : NRingLaws M2ring /\ (exists x y : nr M2ring, nmul M2ring x y <> nmul M2ring y x).
+Proof. split; [exact M2_laws | exact M2_not_commutative]. Qed.
+
+Example C30_block_triangular_powers_example :
+  let a : nr M2ring := (0, 1, 0, 0)%Z in let e : nr M2ring := (1, 2, 3, 4)%Z in let b : nr M2ring := (0, 0, 1, 0)%Z in
+  b12 (blk_pow (upper M2ring a e b) 2) = nadd M2ring (nmul M2ring a e) (nmul M2ring e b) /\
+  b12 (blk_pow (upper M2ring a e b) 2) = (5, 4, 4, 0)%Z.
+Proof. vm_compute. split; reflexivity. Qed.
